@@ -133,10 +133,10 @@ pub fn run_prop(ctx: &Ctx) -> PropReport {
     let seed = ctx.seed;
     rep.part(|| run_random(ctx, "false_alarm",
         "C01's scenario space with desync detection on (interval 1..=12), sparse saving on/off, all schedules/loss patterns: any DesyncDetected event is a violation; non-trivial = checksum reports were delivered in both directions of every player link AND >=1 rollback happened",
-        || gen_false_alarm(tier), ctx.tier.pick(1600, 8000), eval_false_alarm));
-    let stride = ctx.tier.pick(3u64, 1u64);
+        || gen_false_alarm(tier), ctx.tier.pick(5000, 20000), eval_false_alarm));
+    let stride = ctx.tier.pick(2u64, 1u64);
     rep.part(|| run_enum(ctx, "detection",
-        "enumeration: interval 1..=12 x divergence frame F 1..=200 x which peer diverges (every 3rd case quick, all thorough), 2-3 peers, seeded window/delay/latency jitter/duplication, loss-free (reports are not retransmitted), non-sparse: every peer of a differing pair gets DesyncDetected whose first frame lies in [F, F+2*interval] once its confirmed frame has passed F+4*interval, and the event's two checksums are the ones the two games really saved for that frame; no event before F or between peers that agree",
+        "enumeration: interval 1..=12 x divergence frame F 1..=200 x which peer diverges (every 2nd case quick, all thorough), 2-3 peers, seeded window/delay/latency jitter/duplication, loss-free (reports are not retransmitted), non-sparse: every peer of a differing pair gets DesyncDetected whose first frame lies in [F, F+2*interval] once its confirmed frame has passed F+4*interval, and the event's two checksums are the ones the two games really saved for that frame; no event before F or between peers that agree",
         NDETECT / stride, move |i| detect_case(i * stride, seed), eval_detect, ctx.tier == Tier::Thorough));
     rep.floors.push(("false_alarm".into(), 0.3));
     rep.assumptions = vec!["the corrupted game diverges deterministically (every simulation of a frame >= F produces the same, different state), as a real desync bug would".into()];
